@@ -430,6 +430,27 @@ Spans of submodels differ:
                 f'cannot exceed value of `max_iter` ({max_iter})'
             )
 
+        # Error if period `t` cannot accommodate the lags or leads of the linker
+        # (the longest of its submodels'): indexes before the start (beyond the
+        # end) of the span would otherwise silently wrap around to the other end
+        t_check = t
+        if t_check < 0:
+            t_check += len(self.span)
+
+        if 0 <= t_check < self.lags:
+            raise IndexError(
+                f'Position `t` ({t}) leaves too few earlier periods '
+                f'for the lags of the current linker instance: '
+                f'position {t_check} < {self.lags} lag(s)'
+            )
+
+        if len(self.span) - self.leads <= t_check < len(self.span):
+            raise IndexError(
+                f'Position `t` ({t}) leaves too few later periods '
+                f'for the leads of the current linker instance: '
+                f'position {t_check} >= {len(self.span)} periods in span - {self.leads} lead(s)'
+            )
+
         if submodels is None:
             submodels = list(self.__dict__['submodels'].keys())
 
